@@ -518,7 +518,11 @@ class open_gate:
         if self.orig is not None:
             def passthrough(environment, func, alias=None):
                 self.captured.append(func)
-                F.add(environment, func, alias)
+                # what the binder does once the gate is passed (written out here: the helper of the
+                # implementation that does it is not part of what the tables may depend on)
+                if alias is not None:
+                    environment.put(alias, func)
+                environment.put(func.name, func)
             F.bind_native_fun = passthrough
         return self
 
